@@ -516,6 +516,14 @@ pub open spec fn close_msgs_ok(msgs: Seq<SubMsg<Empty>>, p: Proposal) -> bool {
     r is Ok ==> inv(final(deps.storage).view()) && count(final(deps.storage).view()) == 0
 @ensures C06.instantiate_threshold_valid
     r is Ok ==> grp_total_now(deps.querier.world(), msg.group_addr@) is Some
+@ensures C05.instantiate_config_as_given C03 C06 C15
+    r is Ok ==> cfg_of(final(deps.storage).view()) is Some && cfg_of(final(deps.storage).view())->Some_0.threshold == msg.threshold
+        && cfg_of(final(deps.storage).view())->Some_0.max_voting_period == msg.max_voting_period
+        && cfg_of(final(deps.storage).view())->Some_0.group_addr.0@ == msg.group_addr@
+        && cfg_of(final(deps.storage).view())->Some_0.executor == msg.executor
+        && (msg.proposal_deposit is None <==> cfg_of(final(deps.storage).view())->Some_0.proposal_deposit is None)
+        && (msg.proposal_deposit is Some ==> cfg_of(final(deps.storage).view())->Some_0.proposal_deposit->Some_0.amount == msg.proposal_deposit->Some_0.amount
+            && cfg_of(final(deps.storage).view())->Some_0.proposal_deposit->Some_0.refund_failed_proposals == msg.proposal_deposit->Some_0.refund_failed_proposals)
         && msg.threshold.valid(grp_total_now(deps.querier.world(), msg.group_addr@)->Some_0)
         && cfg_of(final(deps.storage).view())->Some_0.threshold == msg.threshold
         && cfg_of(final(deps.storage).view())->Some_0.group_addr.0@ == msg.group_addr@
